@@ -23,7 +23,7 @@ ASSUMPTIONS = [
     "for a refused cross-project operation only: error class, no foreign pair recorded, tables consistent and unchanged for pairs not named by the op",
 ]
 REQUIRED_LABELS = {
-    "quick": ["reconnect_after_disconnect", "list_overlap", "freed_slot_middle", "cross_project", "self_loop", "mixed_disconnect_list", "other_project_linked", "save_midway", "cross_project_mixed_request", "mixed_request_with_noop_pair", "modules_at_positions_above_256", "operand_list_with_disconnects_reused", "project_object_dropped_by_caller", "fan_out_of_more_than_255"],
+    "quick": ["reconnect_after_disconnect", "list_overlap", "freed_slot_middle", "cross_project", "self_loop", "mixed_disconnect_list", "other_project_linked", "save_midway", "cross_project_mixed_request", "mixed_request_with_noop_pair", "modules_at_positions_above_256", "operand_list_with_disconnects_reused", "project_object_dropped_by_caller", "fan_out_of_more_than_16", "fan_out_of_more_than_255"],
     "thorough": ["reconnect_after_disconnect", "list_overlap", "freed_slot_middle", "cross_project", "self_loop", "mixed_disconnect_list"],
 }
 
@@ -47,7 +47,7 @@ def plan(tier):
         descs.append({"kind": "random", "examples": per, "max_modules": 8 if tier == "quick" else 16, "max_ops": 30 if tier == "quick" else 50})
     descs.append({"kind": "lifetime"})
     for i in range(2 if tier == "quick" else 8):
-        descs.append({"kind": "random", "big": True, "examples": 25 if tier == "quick" else 150, "max_modules": 8, "max_ops": 20})
+        descs.append({"kind": "random", "big": True, "wide": i % 2 == 1, "examples": 25 if tier == "quick" else 150, "max_modules": 8, "max_ops": 20})
     return descs
 
 
@@ -220,13 +220,13 @@ def run_overlap(ctx):
 
 
 @st.composite
-def op_list(draw, max_modules=8, max_ops=30, with_save_load=False, big=False):
+def op_list(draw, max_modules=8, max_ops=30, with_save_load=False, big=False, wide=False):
     n0 = draw(st.integers(1, min(4, max_modules)))
     types = [draw(st.sampled_from(lm.LINK_TYPES)) for _ in range(n0)]
     n = n0 + 1  # + output
     # big projects: `base` filler modules come first, so that the modules taking part in the history
     # sit at positions just below / at / above 256 and 65536 is not needed to see 16-bit issues
-    base = draw(st.sampled_from([250, 254, 255, 256, 300])) if big else 0
+    base = draw(st.sampled_from([256, 257, 300] if wide else [254, 256, 257, 300])) if big else 0
     valid = [0] + list(range(base + 1, base + n0 + 1))
     ops = []
     k = draw(st.integers(1, max_ops))
@@ -237,12 +237,18 @@ def op_list(draw, max_modules=8, max_ops=30, with_save_load=False, big=False):
         weights = weights + ["save_load", "save_load", "save_load", "save"]
     idx = lambda: draw(st.sampled_from(valid))  # noqa: E731
     idxs = lambda lo=1, hi=4: draw(st.lists(st.sampled_from(valid), min_size=lo, max_size=min(hi, len(valid)), unique=True))  # noqa: E731
-    if big and base >= 255 and draw(st.booleans()):
-        # a fan-out of more than 255 links, with slots freed in its middle afterwards
+    if big and (wide or draw(st.booleans())):
+        # a fan-out of 17 / 40 / more than 255 links (the source is a MultiCtl every other time: it has
+        # a 16-row mapping table of its own), with slots freed in its middle and re-used afterwards
         src = valid[1]
-        ops.append(["fanout", src, 1, base + 1])
+        if draw(st.booleans()):
+            types[0] = "MultiCtl"
+        width = base if wide else draw(st.sampled_from([17, 40, base, base]))
+        ops.append(["fanout", src, 1, min(base, width) + 1])
         for _ in range(draw(st.integers(1, 3))):
-            ops.append(["rshift_dis", src, draw(st.integers(2, base - 1))])
+            ops.append(["rshift_dis", src, draw(st.integers(2, min(base, width) - 1))])
+        ops.append(["rshift", src, 0])
+        ops.append(["rshift", src, valid[-1]])
     for _ in range(k):
         kind = draw(st.sampled_from(weights))
         if kind == "new":
@@ -370,7 +376,7 @@ def run_ops(ctx, case, prop="C07", on_save_load=None):
             labels.add("save_midway")
             continue
         if op[0] == "fanout":
-            labels.add("fan_out_of_more_than_255")
+            labels.add("fan_out_of_more_than_255" if op[3] - op[2] > 255 else "fan_out_of_more_than_16")
         if op[0] == "reuse":
             labels.add("operand_list_reused")
             if any(d for _, d in op[3]):
@@ -418,7 +424,7 @@ def run_shard(ctx, desc):
                 ctx.mark_nontrivial(case)
             ctx.sample(case)
 
-        run_property(ctx, op_list(desc["max_modules"], desc["max_ops"], big=desc.get("big", False)), body, desc["examples"], tag="ops_big" if desc.get("big") else "ops")
+        run_property(ctx, op_list(desc["max_modules"], desc["max_ops"], big=desc.get("big", False), wide=desc.get("wide", False)), body, desc["examples"], tag="ops_big" if desc.get("big") else "ops")
 
 
 def run_lifetime(ctx):
